@@ -115,3 +115,28 @@ def sched_preempt_two_upstream(tier, fam="F-sched-preempt-block3", opts=("resume
                                    route=matrix([[0.0, 0.0, 1.0], [0.0, 0.0, 1.0], [0.0, 0.0, 0.0]]))},
                        K=k, T=16.0, features=["blocking", "schedule", "preempt_sched"]))
     return out
+
+
+# ------------------------------------------------------------------------------------------------
+# explicit-state families: unbounded arrival streams, populations bounded by system/queue capacities,
+# time-homogeneous dyadic menus => finitely many canonical states (DESIGN 3.6)
+# ------------------------------------------------------------------------------------------------
+BIG = 1.0e9
+
+
+def explicit_basic(tier, fam="E"):
+    small = tier == "quick"
+    out = [single("E c=1 syscap=2", fam, c=1, K=None, T=BIG, system_capacity=2, features=["explicit"])]
+    if small:
+        return out
+    out.append(single("E c=2 syscap=3", fam, c=2, K=None, T=BIG, system_capacity=3, features=["explicit"]))
+    out.append(tandem("E tandem block syscap=3", fam, c=(1, 1), caps=(None, 0), K=None, T=BIG, system_capacity=3, features=["explicit", "blocking"]))
+    out.append(tandem("E tandem c=(2,1) cap=1 syscap=4", fam, c=(2, 1), caps=(None, 1), K=None, T=BIG, system_capacity=4, features=["explicit", "blocking"]))
+    out.append(single("E c=2 renege syscap=3", fam, c=2, K=None, T=BIG, system_capacity=3, classkw={"renege": [PAT]}, features=["explicit", "reneging"]))
+    out.append(two_class_single("E prio-preempt resume syscap=3", fam, c=1, K=None, T=BIG, prios=(1, 0), preempt="resume", system_capacity=3,
+                                features=["explicit", "preempt_prio"]))
+    out.append(single("E sched [1,0,2] syscap=3", fam, K=None, T=BIG, system_capacity=3,
+                      c={"sched": {"numbers": [1, 0, 2], "ends": [1.5, 2.5, 4.0], "preempt": False}}, features=["explicit", "schedule"]))
+    out.append(single("E sched resume [1,0,2] syscap=3", fam, K=None, T=BIG, system_capacity=3,
+                      c={"sched": {"numbers": [1, 0, 2], "ends": [1.5, 2.5, 4.0], "preempt": "resume"}}, features=["explicit", "schedule"]))
+    return out
